@@ -30,4 +30,8 @@ let () =
           (try oracle c rust with e -> [("?", "ORACLE-EXCEPTION " ^ Printexc.to_string e)])
     done
   with End_of_file -> ());
+  if domain = "solver" || domain = "faults" then begin
+    Printf.printf "STAT decision_points %d\n" !D_solver.stat_picks;
+    Printf.printf "STAT decision_points_with_tied_maximum %d\n" !D_solver.stat_tie_picks
+  end;
   Printf.printf "TOTAL %d\n" !n
